@@ -88,7 +88,7 @@ def applyHeader (disableNorm : Bool) (st : HdrState) (key value : Bytes) : Optio
           | some v => some { st with head := { hd with cl := v, clBytes := value } }
         else some st
       else if c = 99 ∧ ciEq key strConnection then
-        if value = strClose then some { st with head := { hd with connClose := true } }
+        if ciEq value strClose then some { st with head := { hd with connClose := true } }   -- any letter case (9dcdbe5)
         else some { st with head := { hd with connClose := false, h := hd.h ++ [(key, value)] } }
       else if c = 116 ∧ ciEq key strTransferEncoding then
         if value != strIdentity then
@@ -96,7 +96,7 @@ def applyHeader (disableNorm : Bool) (st : HdrState) (key value : Bytes) : Optio
         else some st
       else if c = 116 ∧ ciEq key strTrailer then
         let (names, bad) := setTrailers disableNorm value
-        some { st with err := st.err || bad, head := { hd with trailer := names } }
+        some { st with err := st.err || bad, head := { hd with trailer := hd.trailer ++ names } }   -- fields combine (117944e)
       else some add
 
 /-- the scanning loop of `parseHeaders`; returns the final state and `HLen` -/
